@@ -23,6 +23,7 @@ mutual
     | .delegP amt => by simp only [evalTok]; rw [payP_total]; simp [Ref.total]; omega
     | .undelegE amt => by simp only [evalTok]; rw [payE_total]; simp [Ref.total]; omega
     | .claimP => by simp only [evalTok]; exact payP_total r
+    | .touchModule => by simp [evalTok]
     | .frame reverts body => by
       simp only [evalTok]
       split
